@@ -27,11 +27,19 @@ CONSTANTS MaxImports,     \* 0..3: base family (imports of A, B, C; exporters A 
           \* bound family: exactly one import names K from a module that exports it (at any position among
           \* the imports); two or three live modules export a class of that name
           BoundMax,       \* documents of up to this many imports (`;` x LiteCmts, no blank line)
-          BoundLayouts    \* subset of Layouts
+          BoundLayouts,   \* subset of Layouts
+          \* multi-line family: imports of A, B, C of which the last / the earlier ones / all span several lines
+          MultiMax,       \* documents of 1..MultiMax imports (`;` x CommentKinds, no blank line), exporter A
+          UseMultiLayouts,\* subset of MultiLayouts
+          \* std family: the class is one the STANDARD LIBRARY exports (the workspace holds the library); imports
+          \* of A, B, C and of the library module std.map
+          StdMax,         \* documents of 0..StdMax imports (`;` x LiteCmts, no blank line)
+          UseStdClasses,  \* subset of StdClasses
+          StdLayouts      \* subset of Layouts
 
 VARIABLE st
-\* [lvl |-> "root" | "shape" | "doc", fam |-> "base" | "ext", keys |-> Seq(import key),
-\*  imps |-> Seq(ImportEntry), exps |-> Seq(exporting module), layout]
+\* [lvl |-> "root" | "shape" | "doc", fam |-> "base" | "ext" | "bound" | "multi" | "std", keys |-> Seq(import key),
+\*  imps |-> Seq(ImportEntry), exps |-> Seq(exporting module), layout, cls |-> the class the document uses]
 
 \* sequences of distinct keys of length n ("any order")
 RECURSIVE DistinctSeqs(_, _)
@@ -46,25 +54,33 @@ ExtSeqs  == UNION {{s \in DistinctSeqs(BaseKeys \cup ExtKeys, n) :
 BoundSeqs == UNION {{s \in DistinctSeqs(BaseKeys \cup BoundKeys, n) :
                       NoRepeat(s) /\ Cardinality({i \in 1..n : s[i] \in BoundKeys}) = 1} : n \in 1..BoundMax}
 BoundExporters == {<<"A", "E">>, <<"A", "E", "Lib.Exp">>}
+MultiSeqs == UNION {{s \in DistinctSeqs(BaseKeys, n) : NoRepeat(s)} : n \in 1..MultiMax}
+MultiAttrs == [semi : BOOLEAN, cmt : CommentKinds, blank : {FALSE}]
+StdSeqs == UNION {{s \in DistinctSeqs(BaseKeys \cup StdKeys, n) : NoRepeat(s)} : n \in 0..StdMax}
 
 Attrs     == [semi : BOOLEAN, cmt : CommentKinds, blank : BOOLEAN]
 LiteAttrs == [semi : BOOLEAN, cmt : LiteCmts, blank : {FALSE}]
 BaseExporters == {e \in ExporterChoices : (e = <<"A">> /\ 1 \in NExporters) \/ (e = <<"A", "E">> /\ 2 \in NExporters)}
 ExtExporters  == {<<"A">>, <<"Lib.Exp">>}
 
-Init == st = [lvl |-> "root", fam |-> "", keys |-> <<>>, imps |-> <<>>, exps |-> <<>>, layout |-> ""]
+Init == st = [lvl |-> "root", fam |-> "", keys |-> <<>>, imps |-> <<>>, exps |-> <<>>, layout |-> "", cls |-> K]
 
 Next ==
   \/ /\ st.lvl = "root"
      /\ \/ \E ks \in BaseSeqs, ex \in BaseExporters :
              \E lay \in (IF Len(ks) > FewMax THEN Layouts3 ELSE UseLayouts) :
-               st' = [lvl |-> "shape", fam |-> "base", keys |-> ks, imps |-> <<>>, exps |-> ex, layout |-> lay]
+               st' = [lvl |-> "shape", fam |-> "base", keys |-> ks, imps |-> <<>>, exps |-> ex, layout |-> lay, cls |-> K]
         \/ \E ks \in ExtSeqs, ex \in ExtExporters, lay \in ExtLayouts :
-               st' = [lvl |-> "shape", fam |-> "ext", keys |-> ks, imps |-> <<>>, exps |-> ex, layout |-> lay]
+               st' = [lvl |-> "shape", fam |-> "ext", keys |-> ks, imps |-> <<>>, exps |-> ex, layout |-> lay, cls |-> K]
         \/ \E ks \in BoundSeqs, ex \in BoundExporters, lay \in BoundLayouts :
-               st' = [lvl |-> "shape", fam |-> "bound", keys |-> ks, imps |-> <<>>, exps |-> ex, layout |-> lay]
+               st' = [lvl |-> "shape", fam |-> "bound", keys |-> ks, imps |-> <<>>, exps |-> ex, layout |-> lay, cls |-> K]
+        \/ \E ks \in MultiSeqs, lay \in UseMultiLayouts :
+               st' = [lvl |-> "shape", fam |-> "multi", keys |-> ks, imps |-> <<>>, exps |-> <<"A">>, layout |-> lay, cls |-> K]
+        \/ \E ks \in StdSeqs, c \in UseStdClasses, lay \in StdLayouts :
+               st' = [lvl |-> "shape", fam |-> "std", keys |-> ks, imps |-> <<>>, exps |-> <<StdModOf(c)>>, layout |-> lay, cls |-> c]
   \/ /\ st.lvl = "shape"
-     /\ \E as \in [1..Len(st.keys) -> (IF (st.fam = "ext" /\ Len(st.keys) > ExtMaxFull) \/ st.fam = "bound" THEN LiteAttrs ELSE Attrs)] :
+     /\ \E as \in [1..Len(st.keys) -> (IF (st.fam = "ext" /\ Len(st.keys) > ExtMaxFull) \/ st.fam \in {"bound", "std"} THEN LiteAttrs
+                                       ELSE IF st.fam = "multi" THEN MultiAttrs ELSE Attrs)] :
           st' = [st EXCEPT !.lvl = "doc",
                            !.imps = [i \in 1..Len(st.keys) |->
                                        ImportEntry(st.keys[i], as[i].semi, as[i].cmt, as[i].blank)]]
@@ -75,7 +91,7 @@ Spec == Init /\ [][Next]_st
 
 -----------------------------------------------------------------------------
 IsDoc == st.lvl = "doc"
-Text  == Render(st.imps, st.layout)
+Text  == RenderU(st.imps, st.layout, UseOf(st.cls))
 LastHasSemi == Len(st.imps) = 0 \/ st.imps[Len(st.imps)].semi
 
 \* T1: the specification's reader of import sections reads back the abstract document from every layout
@@ -86,7 +102,7 @@ ReadsBack ==
 
 \* T2: a fix that starts a new line after the last import satisfies the expectation on every document
 NewlineFixGood ==
-  IsDoc => \A m \in ToSet(st.exps), v \in {"newline", "newline-extent"} : Good(Text, Fix(Text, m, K, v), m, K)
+  IsDoc => \A m \in ToSet(st.exps), v \in {"newline", "newline-extent"} : Good(Text, Fix(Text, m, st.cls, v), m, st.cls)
 
 \* T3: the fix the implementation computes today (no separator) satisfies it exactly when there is no
 \* import or the character before the insertion point ends a token by itself: the `;` of the last import
@@ -100,7 +116,7 @@ GlueFixGoodIffSeparated ==
   \* (for a class the document imports from m already, an insertion that has no effect is "good" as well:
   \* the equivalence speaks of imports that are new)
   IsDoc => \A m \in ToSet(st.exps), v \in {"glue", "glue-extent"} :
-             <<m, K>> \notin Table(st.imps) => (Good(Text, Fix(Text, m, K, v), m, K) <=> GlueOk(v))
+             <<m, st.cls>> \notin Table(st.imps) => (Good(Text, Fix(Text, m, st.cls, v), m, st.cls) <=> GlueOk(v))
 \* ... which needs the `;` unless a block comment follows
 GlueOkNeedsSemicolon ==
   IsDoc => /\ LastHasSemi <=> GlueOk("glue")
@@ -124,19 +140,27 @@ ApplySane ==
               /\ ~WellFormed(T, <<[e0 EXCEPT !.ec = Len(T[1]) + 1]>>)
               /\ (Len(T[1]) > 1 => ~WellFormed(T, <<[e0 EXCEPT !.ec = 2], [e0 EXCEPT !.sc = 1, !.ec = 1]>>))
 
-Mods == {ModOf(k) : k \in (IF st.fam = "ext" THEN BaseKeys \cup ExtKeys ELSE BaseKeys)} \cup ToSet(st.exps)
+\* (the modules of the standard library are not given a text here: the driver loads the library itself)
+Mods == {ModOf(k) : k \in (IF st.fam = "ext" THEN BaseKeys \cup ExtKeys ELSE BaseKeys)}
+          \cup (IF st.fam = "std" THEN {} ELSE ToSet(st.exps))
 \* the module K is bound to in the document before any edit ("" when it is not bound): the last import that
 \* names it from a module that exports it, else the document itself when it declares the class
 BoundTo ==
-  LET is == {i \in 1..Len(st.imps) : K \in ToSet(st.imps[i].names) /\ st.imps[i].mod \in ToSet(st.exps)}
+  LET is == {i \in 1..Len(st.imps) : st.cls \in ToSet(st.imps[i].names) /\ st.imps[i].mod \in ToSet(st.exps)}
   IN IF is # {} THEN st.imps[Max(is)].mod ELSE IF st.layout = "local" THEN "Doc" ELSE ""
 \* K is already named in an import of the document (of a module that does not export it)
-AlreadyNamed == \E i \in 1..Len(st.imps) : K \in ToSet(st.imps[i].names) /\ st.imps[i].mod \notin ToSet(st.exps)
+AlreadyNamed == \E i \in 1..Len(st.imps) : st.cls \in ToSet(st.imps[i].names) /\ st.imps[i].mod \notin ToSet(st.exps)
 Dotted(m) == \E j \in 1..Len(m) : SubSeq(m, j, j) = "."
 Case ==
   [doc |-> [imports |-> st.imps, layout |-> st.layout, fam |-> st.fam, keys |-> st.keys],
    text |-> JoinLines(Text),
-   cls |-> K,
+   cls |-> st.cls,
+   with_std |-> st.fam = "std",
+   \* which imports span several lines (indices), for the census of the driver
+   multiline |-> IF st.layout \in MultiLayouts
+                 THEN {i \in 1..Len(st.imps) : LET w == WhichOf(st.layout) IN
+                         w = "all" \/ (w = "last" /\ i = Len(st.imps)) \/ (w = "earlier" /\ i < Len(st.imps))}
+                 ELSE {},
    exporters |-> st.exps,
    mods |-> [m \in Mods |-> ModuleText(m, st.exps)],
    last_semi |-> LastHasSemi,
